@@ -157,7 +157,7 @@ def _notif(r, typ, children, frm=None, participant=None, extra=None):
 
 
 def _participants(r, lo=1, hi=5, typed=False):
-    n = r.randint(lo, hi)
+    n = gen.count(r, lo, hi)
     seen, out = set(), []
     for _ in range(n):
         j = gen.jid(r)
@@ -246,6 +246,22 @@ def h_participants_list(r):
 
 def h_picture_result(r):
     return _iq_result(r, gen.jid(r), [("picture", {"type": r.choice(["image", "preview"]), "id": draw(r, "id")}, [], gen.blob(r, r.randint(1, 300)))])
+
+
+def h_upload_result(r):
+    """Answer to a media upload request: a fresh upload slot (with or without ip / resume offset) or 'already there'."""
+    url = "https://mmg.whatsapp.net/u/%s" % gen.s_from(r, gen.ALNUM, 12)
+    if r.random() < 0.4:
+        a = {"url": url}
+        kid = ("duplicate", a, [], None)
+    else:
+        a = {"url": url}
+        if r.random() < 0.5:
+            a["ip"] = "%d.%d.%d.%d" % tuple(r.randint(1, 254) for _ in range(4))
+        if r.random() < 0.4:
+            a["resume"] = str(r.choice([1, 1024, r.randint(1, 10 ** 6)]))
+        kid = ("encr_media", a, [], None)
+    return _iq_result(r, S, [kid])
 
 
 def h_statuses_result(r):
@@ -371,6 +387,7 @@ HAND = {
     "participants_list": ("yowsup.layers.protocol_groups.protocolentities", "ListParticipantsResultIqProtocolEntity", h_participants_list),
     "picture_result": ("yowsup.layers.protocol_profiles.protocolentities", "ResultGetPictureIqProtocolEntity", h_picture_result),
     "statuses_result": ("yowsup.layers.protocol_profiles.protocolentities", "ResultStatusesIqProtocolEntity", h_statuses_result),
+    "upload_result": ("yowsup.layers.protocol_media.protocolentities", "ResultRequestUploadIqProtocolEntity", h_upload_result),
     "lastseen_result": ("yowsup.layers.protocol_presence.protocolentities", "ResultLastseenIqProtocolEntity", h_lastseen_result),
     "stream_features": ("yowsup.layers.auth.protocolentities", "StreamFeaturesProtocolEntity", h_stream_features),
     "stream_error": ("yowsup.layers.auth.protocolentities", "StreamErrorProtocolEntity", h_stream_error),
